@@ -255,7 +255,11 @@ DenAttrs(at, env) ==
                       [] a.a = "scriptcall" -> [pairs |-> << [n |-> a.n, v |-> "SCRG"] >>, evs |-> <<>>]
              defs == CASE a.a = "cssclass"   -> << "cssB" >>
                        [] a.a = "scriptcall" -> << "scriptG" >>
-                       [] OTHER -> <<>>       \* (conditional attributes never hold them in this vocabulary)
+                       \* as coded: the definitions needed by EITHER arm of a conditional attribute are written in
+                       \* front of the start tag whatever the condition is (the handler attribute itself is
+                       \* conditional); a definition too many is harmless, one too few breaks the handler
+                       [] a.a = "cond" -> DenAttrs(a.then, env).defs \o DenAttrs(a.else, env).defs
+                       [] OTHER -> <<>>
          IN [pairs |-> one.pairs \o rest.pairs, evs |-> one.evs \o rest.evs, defs |-> defs \o rest.defs]
 
 \* a start tag with the definitions its attributes need in front of it: the first token carries the gap
